@@ -260,8 +260,8 @@ Contract(
     lambda tier: [dict(spec="pair2", rounds=2), dict(spec="iso_str2", rounds=1, modes=["min"], algo_params=dict(**P1)),
                   dict(spec="pair_cost", rounds=1, algo_params=dict(variant="A", **P1)),
                   dict(spec="chain3", rounds=1, modes=["min"], algo_params=dict(variant="C", **P1), start_order="rev", interleave_start=True)]
-    + ([dict(spec="chain3", rounds=2, algo_params=dict(variant="B", **P1)), dict(spec="pair3", rounds=2, algo_params=dict(**P1)), dict(spec="iso_str", rounds=1), dict(spec="iso_str2", rounds=2, modes=["min"]),
-        dict(spec="pair_cost", rounds=2, algo_params=dict(variant="A"))] if tier == "thorough" else []),
+    + ([dict(spec="chain3", rounds=2, algo_params=dict(variant="B", **P1)), dict(spec="pair3", rounds=2, algo_params=dict(**P1)), dict(spec="iso_str", rounds=1),
+        dict(spec="pair_cost", rounds=2, algo_params=dict(variant="A", **P1))] if tier == "thorough" else []),
     mode="B", must_cover=["ran"],
     trusted=["timers: the periodic actions (delayed_start, tick) are invoked by the harness in a fixed order between deliveries",
              "random.* modelled as explored choices / fresh reals"],
